@@ -337,7 +337,7 @@ def cpl_finish_fold(ctx, rep, R3):
         def mkframe():
             return Obj('frame', predicates=collections.OrderedDict(P='interp'))
         frames = collections.OrderedDict((w, mkframe()) for w in sorted(worlds_with_frames))
-        mdl = Obj('model', __srcclass__=(m, ClassRef(MODELS, 'BaseModel')), frames=frames, R={w: set() for w in worlds_in_R})
+        mdl = Obj('model', __srcclass__=(m, ClassRef(CPL, 'Model')), frames=frames, R={w: set() for w in worlds_in_R})
 
         def complete():
             log.append('complete_frames')
